@@ -330,7 +330,11 @@ class Discharger(object):
                 if self.int_varset(cv[y][1]) != vx and tried >= 3:
                     break
                 tried += 1
+                self.last_unmatched = None
                 r, m_ = self.prove_int_equal(pc, ivx, cv[y][1])
+                if os.environ.get('DBG'):
+                    print('unify', cv[x][0], cv[y][0], r, 'terms', len(getattr(ivx, 'terms', {})), len(getattr(cv[y][1], 'terms', {})),
+                          'unmatched:', str(self.last_unmatched)[:600] if r != 'unsat' else '')
                 if r == 'sat' and m_ is not None and len(cands) == 1:
                     # the only possible partner differs for some input: that input is a candidate counterexample
                     self.witness = m_
@@ -632,6 +636,47 @@ class Discharger(object):
         self.stats['cut_splits'] = self.stats.get('cut_splits', 0) + 1
         return True
 
+    def decompose_cuts(self, t):
+        """a count that is literally the sum of other counts of the same term (T = sum of b[i] + g[i]: the same guarded
+        increments, added once more) is replaced by that sum, so that it needs no matching of its own"""
+        cv = self.ex.fc.cutvars
+        cs = [c for c in self.cuts_in(t) if isinstance(cv[c][1], GSum) and cv[c][1].terms]
+        if len(cs) < 3:
+            return t
+        cs.sort(key=lambda c: -len(cv[c][1].terms))
+        subs = []
+        for x in cs:
+            ivx = cv[x][1]
+            if len(ivx.terms) < 8:
+                break
+            mask = (1 << ivx.w) - 1
+            rest = {k: (c & mask) for k, (g, c) in ivx.terms.items()}
+            const = ivx.const
+            parts = []
+            for y in cs:
+                ivy = cv[y][1]
+                if y == x or ivy.w != ivx.w or len(ivy.terms) >= len(ivx.terms) or len(ivy.terms) > len(rest):
+                    continue
+                if all(rest.get(k) == (c & mask) for k, (g, c) in ivy.terms.items()):
+                    for k in ivy.terms:
+                        del rest[k]
+                    const -= ivy.const
+                    parts.append(y)
+                    if not rest:
+                        break
+            rs = [cv[y][1].range(True) for y in parts] + [ivx.range(True)]
+            if any(r is None for r in rs) or sum(max(abs(r[0]), abs(r[1])) for r in rs) >= 2 ** 62:
+                continue      # the identity holds mod 2^w only; without small ranges it need not hold over the integers
+            if not rest and len(parts) >= 2:
+                acc = z3.RealVal(canon(const, ivx.w, True))
+                for y in parts:
+                    acc = acc + cv[y][0]
+                subs.append((cv[x][0], acc))
+                self.stats['decomposed'] = self.stats.get('decomposed', 0) + 1
+        if subs:
+            t = z3.substitute(t, *subs)
+        return t
+
     def close(self, obl):
         a, b, tol = obl.extra
         fc = self.ex.fc
@@ -655,6 +700,7 @@ class Discharger(object):
                         r0, m0 = self.check(list(pc), want_model=True)
                         if r0 == z3.sat:
                             return 'sat', m0
+        ta, tb = self.decompose_cuts(ta), self.decompose_cuts(tb)
         self.unify_cuts(pc, ta, tb)
         ta, tb = self.subst_cuts(ta), self.subst_cuts(tb)
         v, m = self.close_terms(pc, ta, tb, Fraction(tol))
